@@ -339,7 +339,8 @@ func (s *clientSocket) sendConnectPacket(authData any) {
 	go s.sendControlPacket(parser.PacketTypeConnect, v)
 }
 
-func (s *clientSocket) onPacket(header *parser.PacketHeader, eventName string, decode parser.Decode) {
+// `epoch` identifies the connection that the packet was received with (see `Manager.connEpoch`).
+func (s *clientSocket) onPacket(header *parser.PacketHeader, eventName string, decode parser.Decode, epoch uint64) {
 	switch header.Type {
 	case parser.PacketTypeConnect:
 		s.onConnect(header, decode)
@@ -364,7 +365,7 @@ func (s *clientSocket) onPacket(header *parser.PacketHeader, eventName string, d
 		}
 
 		for _, handler := range s.eventHandlers.getAll(eventName) {
-			s.onEvent(handler, header, decode, sendAck)
+			s.onEvent(handler, header, decode, sendAck, epoch)
 		}
 	case parser.PacketTypeAck, parser.PacketTypeBinaryAck:
 		s.onAck(header, decode)
@@ -440,6 +441,17 @@ type sendBufferItem struct {
 func (s *clientSocket) emitBuffered() {
 	s.receiveBufferMu.Lock()
 	defer s.receiveBufferMu.Unlock()
+
+	// Only the events that were received with this connection (before its CONNECT packet) count.
+	// See `onEvent`.
+	epoch := s.manager.connEpoch.Load()
+	current := s.receiveBuffer[:0]
+	for _, event := range s.receiveBuffer {
+		if event.epoch == epoch {
+			current = append(current, event)
+		}
+	}
+	s.receiveBuffer = current
 
 	var (
 		// The reason we use this map is that we don't want to
@@ -564,6 +576,8 @@ type clientEvent struct {
 	header  *parser.PacketHeader
 	values  []reflect.Value
 	offset  string
+	// The connection that the event was received with (see `Manager.connEpoch`).
+	epoch uint64
 }
 
 type ackSendFunc = func(id uint64, values []reflect.Value)
@@ -573,6 +587,7 @@ func (s *clientSocket) onEvent(
 	header *parser.PacketHeader,
 	decode parser.Decode,
 	sendAck ackSendFunc,
+	epoch uint64,
 ) (hasAckFunc bool) {
 	types := handler.inputArgs
 	// When connection state recovery is enabled, the server appends the offset
@@ -622,6 +637,16 @@ func (s *clientSocket) onEvent(
 	// and then drains the buffer (see `emitBuffered`). If the state was checked before the mutex is locked,
 	// an event could be put into the buffer after it was drained. It would stay there until the next connection.
 	s.receiveBufferMu.Lock()
+	// The connection that this event was received with might have ended before the turn of the
+	// event came. It is dropped then, like a packet that was still on its way. It must not wait
+	// in the receive buffer for the next connection: if the session is recovered, the server sends
+	// it once more. (`emitBuffered` skips the events of an earlier connection for the same reason:
+	// the connection can end right after this check.)
+	if s.manager.connEpoch.Load() != epoch {
+		s.receiveBufferMu.Unlock()
+		s.debug.Log("ignore packet received after disconnection")
+		return
+	}
 	s.stateMu.RLock()
 	connected := s.state == clientSocketConnStateConnected
 	s.stateMu.RUnlock()
@@ -631,6 +656,7 @@ func (s *clientSocket) onEvent(
 			header:  header,
 			values:  values,
 			offset:  offset,
+			epoch:   epoch,
 		})
 		s.receiveBufferMu.Unlock()
 		return
